@@ -77,6 +77,7 @@ def rule_staleness_reaches_memories(ctx):
             n += 1
             ws = " ".join(all_where_clauses(st.text))
             ctx.check(not re.search(r"\bdetached\b", ws) and not re.search(r"\bdetached\b", st.text), fq, "env_var selector does not filter on detached", "tracked environment variables of detached steps are not re-examined at startup", "no detached filter", where=f"stepup/core/{fi.module.path.name}:{st.site.lineno}")
+    shared.check_changes_reach_detached_files(ctx, "an edit made while the node is detached (sub-plan switched off, failed or uncleaned build) is never noticed; when the sub-plan comes back its steps are recycled and skipped on a stale hash, and the output is stale")
     ng = ctx.prog.func("workflow.Workflow.nglob_registrations")
     src = _norm(ast.unparse(ng.node))
     ctx.check("if not include_detached: sql += ' WHERE NOT node.detached'" in src, ng.fq, "detached filter only without include_detached", "include_detached no longer removes the detached filter", "conditional filter")
@@ -275,7 +276,7 @@ def rule_recycle_compare(ctx):
     ctx.check("if node is None or not detached or (not node.can_recycle(**kwargs)): return None" in src.replace("or not node.can_recycle(**kwargs)", "or (not node.can_recycle(**kwargs))"), tr_.fq, "recycle requires a detached node that accepts the declaration", "try_recycle guard changed", "guarded")
     shared.check_initialize_row_carry_over(ctx, "a recycled BUILT output is trusted as up to date (or a fresh row is outdated needlessly)")
     shared.check_after_recycle_repends(ctx, "a recycled step is trusted although it failed or lost its hash (or is re-run needlessly)")
-    shared.check_recreated_step_clean_slate(ctx, "an edge to an output that the new declaration dropped survives the re-creation of the step; when the step is later detached and declared with that output again, can_recycle sees the stale edge, recycles the step as complete, and the output (an orphan without creator) is deleted by the cleanup although the plan declares it")
+    shared.check_can_recycle_counts_own_outputs(ctx, "an edge to an output that an earlier re-declaration dropped survives the partial recycle; when the step is detached and declared with that output again, can_recycle takes the stale edge for a declaration, the step is recycled as complete, and the output (an orphan without creator) is deleted by the cleanup although the plan declares it")
 
 
 def rule_startup_order(ctx):
@@ -310,7 +311,7 @@ RULES = [
 ]
 
 MUTANTS = [
-    Mutant("recreated-step-keeps-output-edges", "step.py", in_function("Step.initialize_row", replace_once("        self.del_all_sinks()\n", "")), ("R-C01-9",)),
+    Mutant("recycle-counts-stale-output-edges", "step.py", in_function("Step.can_recycle", lambda s: s.replace(" if r.path in own_paths)", ")") if " if r.path in own_paths)" in s else None), ("R-C01-9",)),
     Mutant("recycle-ignores-new-overrides", "step.py", in_function("Step.after_recycle", replace_once("state == StepState.SUCCEEDED and (self.get_hash() is None or hashed_args_changed)", "state == StepState.SUCCEEDED and self.get_hash() is None")), ("R-C01-9",)),
     Mutant("lost-product-one-level", "step.py", in_function("Step.after_lost_product", replace_once("creator.after_lost_product()", "creator.delete_hash()")), ("R-C01-5",)),
     Mutant("consumers-attached-only", "workflow.py", in_function("Workflow.mark_consuming_steps_pending", replace_once("file.sinks(Step, include_detached=True)", "file.sinks(Step)")), ("R-C01-1",)),
